@@ -54,4 +54,66 @@ MODULES = {
         #  fit: an expression statement (logging call) and a store to an integer-indexed array element inside the if --
         #  the translator answers "unsupported if-statement shape"; it stays with scan_row's `None => r` + correspondence)
     ]),
+    # get_as_dframe_and_set_reference_and_expect_copies, per row: the two `np.repeat(ploidy, len(df))` defaults and the
+    # masked `.loc[mask, column] = value` stores, each mask read as the row's own mask bit (chr_x_filter / chr_y_filter /
+    # pary_filter of cnary.py are opaque booleans here; FnCnarySex ties those).  np.repeat(ploidy, len(df)) is, per row,
+    # an opaque integer that the theorem instantiates with ploidy.
+    # (Proofs/FnCallRefExpect.v: C01_source_ref_expect -- equals Model/Call.v ref_expect on every class of row)
+    # mutations that break the tie: `ploidy // 2 if is_haploid_x_reference else ploidy` branches swapped; the PAR-Y
+    # stores dropped; `0 if is_sample_female` -> `1 if ...`
+    'FnCallRefExpect': ('cnvlib/call.py', [
+        dict(name='get_as_dframe_and_set_reference_and_expect_copies', coq='fn_ref_expect',
+             py_params=['cnarr', 'ploidy', 'is_haploid_x_reference', 'diploid_parx_genome', 'is_sample_female'],
+             fragment=dict(first="df['reference'] = np.repeat(", last='if diploid_parx_genome is not None'),
+             params=[('np.repeat(ploidy, len(df))', 'Z', 'ploidy_rep'), ('ploidy', 'Z'),
+                     ('is_haploid_x_reference', 'B'), ('is_sample_female', 'B'),
+                     ('cnarr.chr_x_filter(diploid_parx_genome)', 'B', 'x_mask'),
+                     ('cnarr.chr_y_filter(diploid_parx_genome)', 'B', 'y_mask'),
+                     ('diploid_parx_genome is not None', 'B', 'has_build'),
+                     ('cnarr.pary_filter(diploid_parx_genome)', 'B', 'pary_mask')],
+             returns=["df['reference']", "df['expect']"], ret=['Z', 'Z']),
+    ]),
+    # absolute_threshold: ONE ITERATION of the OUTER loop `for idx, row in enumerate(cnarr):` -- the NaN fallback (log line
+    # dropped, absolutes[idx] = ref_copies, continue) and the store of the scanned copy number; the inner for/else scan is
+    # an OPAQUE range here (its effect: cnum; FnCallScan ties its iteration and the else clause).
+    # (Proofs/FnCallScanRow.v: C02_source_scan_row -- equals Model/Threshold.v scan_row)
+    # mutations that break the tie: `absolutes[idx] = ref_copies` -> `= ploidy`; `np.isnan` test negated; `absolutes[idx] = cnum` -> `cnum + 1`
+    'FnCallScanRow': ('cnvlib/call.py', [
+        dict(name='_reference_copies_pure', coq='fn_scanrow_ref_pure',
+             params=[('chrom', 'S'), ('ploidy', 'Z'), ('is_haploid_x_reference', 'B')], ret='Z'),
+        dict(name='absolute_threshold', coq='fn_threshold_row',
+             py_params=['cnarr', 'ploidy', 'thresholds', 'is_haploid_x_reference'],
+             loop=dict(first='for idx, row in enumerate(cnarr)'),
+             carried=[('absolutes[idx]', 'Z')],
+             opaque=[dict(first='cnum = 0', last='for cnum, thresh in enumerate(thresholds)',
+                          assigns=[('cnum', 'scanned')])],
+             init=[('absolutes[idx]', 'Z', '0')],
+             params=[('idx', 'Z'), ('row.chromosome', 'S', 'chromosome'), ('row.log2', 'OQ', 'log2'),
+                     ('ploidy', 'Z'), ('is_haploid_x_reference', 'B'), ('scanned', 'Z')],
+             ret='Z'),
+    ]),
+    # do_call: the DISPATCH between the calling paths, per row -- `if purity and purity < 1.0:` (clonal + clip, log2
+    # rewritten, BAF rescaled when variants are given) / `elif method == "clonal":` (pure) / `if method == "threshold":`
+    # (overrides).  The results of the called functions are opaque typed inputs keyed by their source text (each tied by a
+    # module of its own); `absolutes` is unbound when no path computes it (method "none"): bound to 0 here and never read.
+    # (Proofs/FnCallDispatch.v: C01_source_dispatch -- the choice is Model/Call.v use_purity, then the method)
+    # mutations that break the tie: `purity < 1.0` -> `purity <= 1.0`; `elif method == "clonal"` -> `if ...`;
+    # `if method == "threshold"` -> `elif ...`; `if variants:` (inside the purity branch) dropped
+    'FnCallDispatch': ('cnvlib/call.py', [
+        dict(name='do_call', coq='fn_dispatch',
+             py_params=['cnarr', 'variants', 'method', 'ploidy', 'purity', 'is_haploid_x_reference', 'is_sample_female',
+                        'diploid_parx_genome', 'filters', 'thresholds'],
+             fragment=dict(first='if purity and purity < 1.0', last="if method == 'threshold'"),
+             init=[('absolutes', 'Q', '(inject_Z 0)')],
+             params=[('purity', 'OQ'), ('method', 'S'), ('variants', 'B'),
+                     ("outarr['log2']", 'OQ', 'log2_in'), ("outarr['baf']", 'OQ', 'baf_in'),
+                     ('absolute_clonal(outarr, ploidy, purity, is_haploid_x_reference, diploid_parx_genome, is_sample_female).clip(lower=0)',
+                      'Q', 'clonal_clipped'),
+                     ('log2_ratios(outarr, absolutes, ploidy, is_haploid_x_reference, diploid_parx_genome)', 'OQ', 'log2_rewritten'),
+                     ("rescale_baf(purity, outarr['baf'])", 'OQ', 'baf_rescaled'),
+                     ('absolute_pure(outarr, ploidy, is_haploid_x_reference)', 'Q', 'pure'),
+                     ('absolute_threshold(outarr, ploidy, thresholds, is_haploid_x_reference)', 'Q', 'thresholded'),
+                     ("['%g => %d' % (thr, i) for i, thr in enumerate(thresholds)]", 'LS', 'tokens_')],
+             returns=['absolutes', "outarr['log2']", "outarr['baf']"], ret=['Q', 'OQ', 'OQ']),
+    ]),
 }
